@@ -253,7 +253,10 @@ def discharge_all(eng, c, case, tier, seed):
         for ob in obs:
             if kind == 'mustfail':
                 # at least one normal path must be reachable: sat expected
-                r, be, ms, m = solve(eng, ob, min(tmo, 5000), seed)
+                if any(_has_quant(p_) for p_ in ob.pc):
+                    r, be, ms, m = solve(eng, Obligation_qf(ob), min(tmo, 5000), seed, axioms=False)
+                else:
+                    r, be, ms, m = solve(eng, ob, min(tmo, 5000), seed)
                 if r == 'unknown':
                     # quantified (trusted) axioms make sat answers hard: the
                     # reachability check does not need them
@@ -749,6 +752,73 @@ def _table_worker(name):
         return [], traceback.format_exc()[-1200:], 0
 
 
+def _proc_main(task, conn):
+    try:
+        try:
+            z3.set_param('memory_max_size', 4000)      # MB; z3 gives up instead of eating the box
+        except Exception:
+            pass
+        conn.send(_worker(task))
+    except Exception:
+        try:
+            conn.send({'key': task[0], 'case': str(task[1]), 'status': 'engine-error',
+                       'why': traceback.format_exc()[-1500:], 'clauses': []})
+        except Exception:
+            pass
+    finally:
+        conn.close()
+
+
+def run_tasks(tasks, hard_s, width=16):
+    """One process per (function, case) with a HARD wall-clock limit: z3 does
+    not always honour its own timeout on quantified queries. A killed case is
+    'undecided(timeout)', never a violation."""
+    ctx = mp.get_context('fork')
+    pending = list(enumerate(tasks))
+    running = {}
+    results = [None] * len(tasks)
+    while pending or running:
+        while pending and len(running) < width:
+            i, t = pending.pop(0)
+            parent, child = ctx.Pipe(duplex=False)
+            p = ctx.Process(target=_proc_main, args=(t, child), daemon=True)
+            p.start()
+            child.close()
+            running[i] = (p, parent, time.time(), t)
+        done = []
+        for i, (p, conn, started, t) in running.items():
+            if conn.poll(0):
+                try:
+                    results[i] = conn.recv()
+                except Exception:
+                    results[i] = None
+                done.append(i)
+            elif not p.is_alive():
+                done.append(i)
+            elif time.time() - started > hard_s:
+                p.kill()
+                c = S.REGISTRY[t[0]]
+                results[i] = {'key': t[0], 'case': c.case_name(c.cases()[t[1]]),
+                              'status': 'hard-timeout', 'clauses': [],
+                              'why': 'killed after %d s' % hard_s}
+                done.append(i)
+        for i in done:
+            p, conn, started, t = running.pop(i)
+            p.join(1)
+            if results[i] is None:
+                c = S.REGISTRY[t[0]]
+                results[i] = {'key': t[0], 'case': c.case_name(c.cases()[t[1]]),
+                              'status': 'hard-timeout', 'clauses': [],
+                              'why': 'worker died (exit %s)' % p.exitcode}
+            try:
+                conn.close()
+            except Exception:
+                pass
+        if not done:
+            time.sleep(0.02)
+    return results
+
+
 def required_list():
     p = os.path.join(VERIF, 'vf', 'required.json')
     if os.path.exists(p):
@@ -768,12 +838,7 @@ def verify(prop, modnames, tier, seed, only=None):
         for i, _ in enumerate(S.REGISTRY[k].cases()):
             tasks.append((k, i, tier, seed))
     t0 = time.time()
-    if tasks:
-        ctx = mp.get_context('fork')
-        with ctx.Pool(min(16, max(1, len(tasks)))) as pool:
-            results = pool.map(_worker, tasks, chunksize=1)
-    else:
-        results = []
+    results = run_tasks(tasks, hard_s=(150 if tier == 'quick' else 900))
     required = required_list().get(prop, [])
     out = {'obligations': 0, 'discharged': 0, 'undecided': 0, 'results': [],
            'violations': [], 'errors': [], 'functions': [], 'out_of_subset': [],
@@ -807,6 +872,12 @@ def verify(prop, modnames, tier, seed, only=None):
             continue
         if r['status'] == 'engine-error':
             out['errors'].append('engine error in %s [%s]: %s' % (r['key'], r['case'], r.get('why')))
+            continue
+        if r['status'] == 'hard-timeout':
+            out['out_of_subset'].append({'function': r['key'], 'case': r['case'],
+                                         'why': 'undecided(timeout): ' + str(r.get('why'))})
+            f['out_of_subset_cases'] += 1
+            out['undecided'] += 1
             continue
         got_mustfail = False
         for cl in r['clauses']:
